@@ -207,10 +207,14 @@ def run_shards(modname: str, specs: list[dict], watchdog_s: float) -> tuple[Resu
             sp = WORK / f"{tag}-{i}.spec.json"
             op = WORK / f"{tag}-{i}.out.json"
             sp.write_text(json.dumps(spec))
-            p = subprocess.Popen(
-                [PY, "-m", "vt.core", "--worker", modname, str(sp), str(op)],
-                cwd=str(ROOT), env=env, stdout=subprocess.DEVNULL, stderr=subprocess.PIPE,
-            )
+            # stderr goes to a FILE, not a pipe: code under test that logs a lot (e.g. one error line per failing lift) must
+            # not block the worker on a full pipe and turn a violation into a watchdog timeout
+            ep = WORK / f"{tag}-{i}.err"
+            with open(ep, "wb") as ef:
+                p = subprocess.Popen(
+                    [PY, "-m", "vt.core", "--worker", modname, str(sp), str(op)],
+                    cwd=str(ROOT), env=env, stdout=subprocess.DEVNULL, stderr=ef,
+                )
             running.append((i, p, sp, op, time.time()))
         still = []
         for (i, p, sp, op, t0) in running:
@@ -220,12 +224,20 @@ def run_shards(modname: str, specs: list[dict], watchdog_s: float) -> tuple[Resu
                     p.kill()
                     p.wait()
                     problems.append(f"shard {i}: wall-clock watchdog ({watchdog_s:.0f}s) fired")
+                    (WORK / f"{tag}-{i}.err").unlink(missing_ok=True)
                     sp.unlink(missing_ok=True)
                     op.unlink(missing_ok=True)
                 else:
                     still.append((i, p, sp, op, t0))
                 continue
-            err = p.stderr.read().decode(errors="replace") if p.stderr else ""
+            ep = WORK / f"{tag}-{i}.err"
+            try:
+                with open(ep, "rb") as ef:
+                    ef.seek(max(0, ep.stat().st_size - 4000))
+                    err = ef.read().decode(errors="replace")
+            except OSError:
+                err = ""
+            ep.unlink(missing_ok=True)
             if rc != 0 or not op.exists():
                 problems.append(f"shard {i}: worker exit {rc}: {err[-1500:]}")
             else:
